@@ -197,8 +197,8 @@ def print_assumptions(ctx, pid, names):
         if 'Closed under the global context' in rest:
             res[name] = []
         else:
-            ax = re.findall(r'^([A-Za-z_][\w.]*)\s*:', rest, re.M)
-            res[name] = ax
+            ax = re.findall(r'^([A-Za-z_][\w.]*)\s*(?:$|:\s)', rest, re.M)
+            res[name] = [a for a in ax if a not in ('Axioms',)]
     return res, out
 
 
@@ -415,3 +415,50 @@ def finish(ctx, level='proof', checker_cmd='', trusted=None, assumptions=None):
     print(f"OK {ctx.pid} {ctx.tier}: {dis}/{obl} obligations, {ctx.evaluations} evaluations, "
           f"{len(ctx.distinct)} distinct non-trivial, {ctx.elapsed():.1f}s")
     return 0
+
+
+# ------------------------------------------------------------------------------------------
+# certified correspondence for real-valued models: per-case lemmas closed by `interval`
+from fractions import Fraction  # noqa: E402
+
+
+def rlit(x):
+    """exact Gallina real literal for a binary64 value"""
+    fr = Fraction(float(x))
+    n, d = fr.numerator, fr.denominator
+    s = f'(IZR ({n}))' if n < 0 else f'(IZR {n})'
+    return s if d == 1 else f'({s} / IZR {d})'
+
+
+def _certify_file(args):
+    work, idx, header, goals = args
+    p = os.path.join(work, f'cert_{idx}.v')
+    with open(p, 'w') as fh:
+        fh.write(header + '\n')
+        for g in goals:
+            fh.write(g.replace('\n', ' ') + '\n')
+    nhead = header.count('\n') + 1
+    r = subprocess.run(['bash', '-c', f'ulimit -s unlimited; timeout 1500 coqc -Q {COQ} Aegean -w -all {p}'],
+                       capture_output=True, text=True, cwd=work)
+    if r.returncode == 0:
+        return None
+    m = re.search(r'line (\d+)', r.stderr)
+    k = int(m.group(1)) - nhead - 1 if m else -1
+    return (k, r.stderr[-600:])
+
+
+def coq_certify(ctx, header, goals, shard=40, workers=12):
+    """compile per-case lemmas; returns list of (goal index, error) for the first failing goal of
+    each shard (empty list = every lemma was accepted by the kernel)"""
+    jobs = []
+    base = len(os.listdir(ctx.work))
+    for n, i in enumerate(range(0, len(goals), shard)):
+        jobs.append((ctx.work, f'{base}_{n}', header, goals[i:i + shard]))
+    bad = []
+    with ThreadPoolExecutor(max_workers=workers) as ex:
+        for (job, res) in zip(jobs, ex.map(_certify_file, jobs)):
+            if res is not None:
+                k, err = res
+                off = int(job[1].split('_')[1]) * shard
+                bad.append((off + k if k >= 0 else -1, err))
+    return bad
